@@ -530,11 +530,29 @@ class Txt:
         parts.append(Txt(cur))
         return tuple(parts)
 
-    def split_ws(self):
+    def split_ws(self, rng=None):
         """split() on white space: every numeric field is one word (its padding is white space), literal text is split as usual; None when a
-        field could itself hold white space or touches a neighbour without a blank"""
-        words, glued = [], False
+        field could itself hold white space or touches a neighbour without a blank.  With a range oracle `rng(value) -> (lo, hi)` a right-aligned
+        integer field that follows another field without a blank is still a word of its own when its value is provably narrower than the
+        field (it starts with a blank); when its value can fill the field the two fields fuse: Bad (a provable writer / reader disagreement:
+        the witness is the value that fills the field)"""
+        words, glued, prev = [], False, None
         for x in self.p:
+            was, prev = prev, x
+            if glued and rng is not None and isinstance(x, Fld) and x.kind() == "int" and x.width is not None and const_int(x.width) is not None \
+                    and x.eff_align() == ">" and not (x.flags or "") and is_rat(x.v) and isinstance(was, Fld):
+                w = const_int(x.width)
+                lo, hi = rng(x.v)
+                if w >= 2 and lo is not None and hi is not None and not is_rat(lo) and not is_rat(hi):
+                    if lo >= 0 and hi < 10 ** (w - 1):
+                        words.append(Txt([Fld(x.v, x.conv, None, x.prec, None, x.flags)]))
+                        glued = True
+                        continue
+                    if lo >= 0 and hi >= 10 ** (w - 1):
+                        return Bad(f"split() on white space of two adjacent {w}-character integer fields: the second field (values up to {int(hi)}) fills its "
+                                   f"{w} characters from {10 ** (w - 1)} on, the two numbers fuse into one word (witness: a field value of {10 ** (w - 1)}); "
+                                   "fixed-column fields must be cut by column")
+                return None
             if isinstance(x, Lit):
                 if not x.s:
                     continue
